@@ -1,9 +1,99 @@
 import KG.Base.Json
-/-! Driver entry points for property C20 (filled in by the C20 model). -/
+import KG.Spec.Strategy
+import KG.Gen.C20
+/-!
+Driver entry points for C20. Field groups travel as hex strings (the harness' canonical rendering of the Go
+value: `DeepEqual`-faithful for `C20.op`, API rendering for `C20.judge`); generation as a JSON integer.
+
+* `C20.op {op:"create"|"main"|"status", reg:{hasMeta,hasSpec,hasStatus,subStatus,optSubStatus}, metaValid,
+  zero, stored: obj|null, submitted: obj}` → `{rej, out, created}`: one API request against the stored state
+  (`apiStep` for the request kinds the harness sends).
+* `C20.judge {op, served, zero, stored, out}` → `{violations:[…], statusAnnotationsOnly}`: the property's
+  clauses on an observed (stored, result) pair.
+* `C20.registrations` → the regenerated list of registered kinds.
+-/
 namespace KG.Driver.C20
-open Lean
+open Lean KG KG.Model.Strategy KG.Spec.Strategy
+
+abbrev O := Obj Str Str Unit Str Str
+
+def decodeObj (j : Json) : Except String O := do
+  pure { labels := ← J.getHex j "labels", annotations := ← J.getHex j "annotations",
+         generation := ← J.getInt j "generation", otherMeta := (),
+         spec := ← J.getHex j "spec", status := ← J.getHex j "status" }
+
+def encodeObj (o : O) : Json :=
+  J.obj [("labels", J.hex o.labels), ("annotations", J.hex o.annotations), ("generation", J.int o.generation),
+         ("spec", J.hex o.spec), ("status", J.hex o.status)]
+
+def decodeReg (j : Json) : Except String Reg := do
+  pure { shape := { hasMeta := ← J.getBool j "hasMeta", hasSpec := ← J.getBool j "hasSpec", hasStatus := ← J.getBool j "hasStatus" },
+         subStatus := ← J.getBool j "subStatus", optSubStatus := ← J.getBool j "optSubStatus" }
+
+def rejName : Reject → String
+  | .internal => "internal"
+  | .invalid => "invalid"
+  | .notServed => "notServed"
+
+def answer (created : Bool) : Except Reject O → Json
+  | .ok o => J.obj [("rej", Json.str ""), ("out", encodeObj o), ("created", J.bool created)]
+  | .error e => J.obj [("rej", Json.str (rejName e)), ("out", Json.null), ("created", J.bool created)]
+
+def doOp (a : Json) : Except String Json := do
+  let op ← J.getStr a "op"
+  let r ← decodeReg (← J.getObj a "reg")
+  let valid ← J.getBool a "metaValid"
+  let zero ← J.getHex a "zero"
+  let sub ← decodeObj (← J.getObj a "submitted")
+  let mr : MetaRules Str Str Unit Str Str :=
+    { fixCreate := id, fixUpdate := fun n _ => n, validCreate := fun _ => valid, validUpdate := fun _ _ => valid }
+  let stored ← match J.optObj a "stored" with
+    | some j => (decodeObj j).map some
+    | none => pure none
+  match op, stored with
+  | "create", none => pure (answer true (beforeCreate r mr zero sub))
+  | "create", some _ => throw "create against an existing object is AlreadyExists; the harness does not send it"
+  | "main", some old => pure (answer false (beforeUpdate r .main mr sub old))
+  | "status", some old => pure (answer false (beforeUpdate r .status mr sub old))
+  | "main", none => pure (answer true (beforeCreate r mr zero sub))
+  | "status", none =>
+      -- apiStep: create-on-update through the status endpoint, when it is served
+      if !r.served then pure (answer false (.error .notServed)) else pure (answer true (beforeCreate r mr zero sub))
+  | _, _ => throw s!"unknown op {op}"
+
+def doJudge (a : Json) : Except String Json := do
+  let op ← J.getStr a "op"
+  let served ← J.getBool a "served"
+  let zero ← J.getHex a "zero"
+  let out ← decodeObj (← J.getObj a "out")
+  let names (l : List Clause) : Json := Json.arr (l.map fun c => Json.str c.name).toArray
+  match op with
+  | "create" =>
+      pure <| J.obj [("violations", names (judgeCreate served zero out)), ("statusAnnotationsOnly", J.bool false)]
+  | "main" => do
+      let stored ← decodeObj (← J.getObj a "stored")
+      pure <| J.obj [("violations", names (judgeMainUpdate served stored out)), ("statusAnnotationsOnly", J.bool false)]
+  | "status" => do
+      let stored ← decodeObj (← J.getObj a "stored")
+      pure <| J.obj [("violations", names (judgeStatusUpdate stored out)),
+                     ("statusAnnotationsOnly", J.bool (statusAnnotationsOnly stored out))]
+  | _ => throw s!"unknown op {op}"
+
+def doRegistrations : Json :=
+  Json.arr (KG.Gen.C20.registrations.map fun f =>
+    J.obj [("kind", Json.str f.kind), ("resource", Json.str f.resource), ("namespaced", J.bool f.namespaced),
+           ("strategySubStatus", J.bool f.strategySubStatus), ("optSubStatus", J.bool f.optSubStatus),
+           ("hasMeta", J.bool f.hasMeta), ("hasSpec", J.bool f.hasSpec), ("hasStatus", J.bool f.hasStatus),
+           ("statusFields", J.nat f.statusFields),
+           ("served", J.bool ({ shape := ⟨f.hasMeta, f.hasSpec, f.hasStatus⟩, subStatus := f.strategySubStatus,
+                                optSubStatus := f.optSubStatus : Reg }).served)]).toArray
 
 /-- `handle method args`: `none` when the method is unknown. -/
-def handle (_m : String) (_a : Json) : Option (Except String Json) := none
+def handle (m : String) (a : Json) : Option (Except String Json) :=
+  match m with
+  | "op" => some (doOp a)
+  | "judge" => some (doJudge a)
+  | "registrations" => some (pure doRegistrations)
+  | _ => none
 
 end KG.Driver.C20
